@@ -54,6 +54,8 @@ func (r *lockedReporter) Flush() {
 
 // c07Cycle: an application goroutine does {obtain subscope, record, Close, obtain again,
 // record} while report passes run; a second identity is never closed.
+var c07Prefix = "c07"
+
 func c07Cycle(passes int, shards uint, preempt int, variant int) {
 	rec := &lockedReporter{}
 	root := newRootScope(ScopeOptions{Reporter: rec, OmitCardinalityMetrics: true, registryShardCount: shards}, 0)
@@ -101,14 +103,14 @@ func c07Cycle(passes int, shards uint, preempt int, variant int) {
 	wg.Wait()
 	verifrt.StopExplore()
 	root.reportRegistry()
-	verifrt.Assert("c07.recorded-before-close-and-on-reacquired-scope-delivered-exactly-once", sumNamed(&rec.vReporter, "a.x") == v1+v2)
-	verifrt.Assert("c07.other-scope-unaffected", sumNamed(&rec.vReporter, "b.x") == v3)
-	verifrt.Assert("c07.inert-child-delivers-nothing", sumNamed(&rec.vReporter, "a.child.y") == 0)
+	verifrt.Assert(c07Prefix+".recorded-before-close-and-on-reacquired-scope-delivered-exactly-once", sumNamed(&rec.vReporter, "a.x") == v1+v2)
+	verifrt.Assert(c07Prefix+".other-scope-unaffected", sumNamed(&rec.vReporter, "b.x") == v3)
+	verifrt.Assert(c07Prefix+".inert-child-delivers-nothing", sumNamed(&rec.vReporter, "a.child.y") == 0)
 	// the re-acquired scope is still registered: a later increment is delivered
 	s2.Counter("x").Inc(v4)
 	root.reportRegistry()
-	verifrt.Assert("c07.reacquired-scope-stays-registered", sumNamed(&rec.vReporter, "a.x") == v1+v2+v4)
-	verifrt.Assert("c07.reacquire-returns-live-scope", root.SubScope("a").(*scope) == s2.(*scope))
+	verifrt.Assert(c07Prefix+".reacquired-scope-stays-registered", sumNamed(&rec.vReporter, "a.x") == v1+v2+v4)
+	verifrt.Assert(c07Prefix+".reacquire-returns-live-scope", root.SubScope("a").(*scope) == s2.(*scope))
 	verifrt.Reach("c07.cycle.end")
 }
 
@@ -141,3 +143,74 @@ func VerifC07Sequential() {
 	verifrt.Assert("c07.seq.exactly-once", sumNamedCached(crec, "a.x") == v1+v2)
 	verifrt.Reach("c07.seq.end")
 }
+
+// c07Alias: with a sanitizer two spellings of a tag value can name the same scope
+// (the registry then holds it under two keys).  Histories over the two spellings:
+// obtain via spelling 1, record, Close, obtain via spelling 2 (and again via 1),
+// record; every value must be delivered exactly once and the scope obtained
+// after the Close must be live and stay registered.
+func c07Alias(concurrent bool) {
+	rec := &lockedReporter{}
+	opts := ScopeOptions{Reporter: rec, OmitCardinalityMetrics: true, registryShardCount: 1,
+		SanitizeOptions: &SanitizeOptions{
+			NameCharacters:       ValidCharacters{Ranges: []SanitizeRange{{'a', 'z'}}},
+			KeyCharacters:        ValidCharacters{Ranges: []SanitizeRange{{'a', 'z'}}},
+			ValueCharacters:      ValidCharacters{Ranges: []SanitizeRange{{'0', '9'}}},
+			ReplacementCharacter: DefaultReplacementCharacter,
+		}}
+	root := newRootScope(opts, 0)
+	sp1, sp2 := verifrt.String("spelling", 1), verifrt.String("spelling", 1)
+	// both spellings sanitize to the same value (the solver picks them, e.g. "-" and "_")
+	verifrt.Assume(verifrt.EqStr(root.sanitizer.Value(sp1), root.sanitizer.Value(sp2)))
+	v1, v2, v3 := verifrt.Int64("inc"), verifrt.Int64("inc"), verifrt.Int64("inc")
+	verifrt.Assume(verifrt.And(v1 != 0, verifrt.And(v2 != 0, v3 != 0)))
+	first := sp1
+	second := sp2
+	if verifrt.Choose("first-obtain-both", 2) == 1 {
+		// the scope is known under both keys before it is closed
+		root.Tagged(map[string]string{"k": sp2})
+	}
+	s := root.Tagged(map[string]string{"k": first})
+	s.Counter("x").Inc(v1)
+	var s2 Scope
+	app := func() {
+		s.(io.Closer).Close()
+		switch verifrt.Choose("reacquire", 3) {
+		case 0:
+			s2 = root.Tagged(map[string]string{"k": second})
+		case 1:
+			s2 = root.Tagged(map[string]string{"k": first})
+			verifrt.Assert("c07.alias.same-identity-same-scope", root.Tagged(map[string]string{"k": second}).(*scope) == s2.(*scope))
+		case 2:
+			s2 = root.Tagged(map[string]string{"k": second})
+			verifrt.Assert("c07.alias.same-identity-same-scope", root.Tagged(map[string]string{"k": first}).(*scope) == s2.(*scope))
+		}
+		s2.Counter("x").Inc(v2)
+	}
+	if concurrent {
+		var wg sync.WaitGroup
+		verifrt.Explore(2)
+		wg.Add(2)
+		go func() { defer wg.Done(); app() }()
+		go func() { defer wg.Done(); root.reportRegistry() }()
+		wg.Wait()
+		verifrt.StopExplore()
+	} else {
+		if verifrt.Choose("pass-before-reacquire", 2) == 1 {
+			s.(io.Closer).Close()
+			root.reportRegistry()
+		}
+		app()
+	}
+	verifrt.Assert("c07.alias.scope-after-close-is-live", !s2.(*scope).closed.Load())
+	root.reportRegistry()
+	root.reportRegistry()
+	verifrt.Assert("c07.alias.delivered-exactly-once", sumNamed(&rec.vReporter, "x") == v1+v2)
+	s2.Counter("x").Inc(v3)
+	root.reportRegistry()
+	verifrt.Assert("c07.alias.scope-after-close-stays-registered", sumNamed(&rec.vReporter, "x") == v1+v2+v3)
+	verifrt.Reach("c07.alias.end")
+}
+
+func VerifC07Alias()           { c07Alias(false) }
+func VerifC07AliasConcurrent() { c07Alias(true) }
